@@ -37,7 +37,9 @@ def render(g):
         rmeta = g.get("rule_meta", {}).get(name)
         head = name + (" {" + rmeta + "}" if rmeta else "")
         out.append(head + ": " + " | ".join(parts) + ";")
-    if g["terms"]:
+    for line in g.get("extra_rules", []):
+        out.append(line)
+    if g["terms"] or g.get("extra_terms"):
         out.append("terminals")
         for t in g["terms"]:
             name, kind, text = t[0], t[1], t[2]
@@ -46,7 +48,45 @@ def render(g):
             rec = "'" + text + "'" if kind == "str" else "/" + text + "/"
             meta = [str(x) for x in (prio, assoc) if x]
             out.append(name + ": " + rec + (" {" + ", ".join(meta) + "}" if meta else "") + ";")
+    for line in g.get("extra_terms", []):
+        out.append(line)
     return "\n".join(out) + "\n"
+
+
+LAYOUTS = {
+    "ws": (["Layout: LayoutItem*;", "LayoutItem: WS;"], ["WS: /\\s+/;"],
+           [" ", "\n", "  ", "\t", " \n ", "\r\n"]),
+    "line": (["Layout: LayoutItem*;", "LayoutItem: WS | CommentLine;"],
+             ["WS: /\\s+/;", "CommentLine: /\\/\\/.*/;"],
+             [" ", "\n", "// c\n", " // x y\n  ", "//\n", "\t"]),
+    "block": (["Layout: LayoutItem*;", "LayoutItem: WS | Comment;",
+               "Comment: CS Corncs CE | CommentLine;", "Corncs: Cornc*;",
+               "Cornc: Comment | NotComment | WS;"],
+              ["WS: /\\s+/;", "CommentLine: /\\/\\/.*/;", "CS: '/*';", "CE: '*/';",
+               "NotComment: /((\\*[^\\/])|[^\\s*\\/]|\\/[^\\*])+/;"],
+              [" ", "\n", "/* x */", " /* a /* n */ b */ ", "// c\n", "/**/", "/* l1\n l2 é */"]),
+}
+
+
+def with_layout(g, kind):
+    rules, terms, vocab = LAYOUTS[kind]
+    g2 = dict(g)
+    g2["extra_rules"] = list(rules)
+    g2["extra_terms"] = list(terms)
+    g2["layout"] = kind
+    return g2
+
+
+def layout_seps(g, rng, n):
+    """n separators drawn from the grammar's layout vocabulary (or white space)."""
+    if g.get("layout"):
+        vocab = LAYOUTS[g["layout"]][2]
+        out = []
+        for _ in range(n):
+            k = rng.choice([0, 1, 1, 1, 2])
+            out.append("".join(rng.choice(vocab) for _ in range(k)))
+        return out
+    return [rng.choice(SEPS) for _ in range(n)]
 
 
 def G(rules, nterms=None, kinds=None, tmeta=None, rule_meta=None):
